@@ -197,6 +197,8 @@ class DSDLDefinition(ReadableDSDLFile):
             raise InvalidDefinitionError(
                 "Attempt to construct ReadableDSDLFile object for file that doesn't exist.", self._file_path
             )
+        if not self._file_path.is_file():
+            raise InvalidDefinitionError("A definition must be a regular file, not a directory", self._file_path)
 
         self._root_namespace_path = Path(root_namespace_path).resolve()
         del root_namespace_path
